@@ -113,6 +113,9 @@ func arrayLiteral(a *ssa.Alloc) []ssa.Value {
 func distinctEdges(p *ssa.Phi) []ssa.Value {
 	var out []ssa.Value
 	for _, e := range p.Edges {
+		if e == ssa.Value(p) {
+			continue // self edge (value unchanged on that path)
+		}
 		dup := false
 		for _, o := range out {
 			if o == e {
